@@ -35,15 +35,17 @@ VARIABLES adj,        \* [Node -> SUBSET Node]   connections (symmetric)
           adding,     \* [Node -> [Block -> Nat]] Put+NotifyNewBlocks calls in progress
           rq,         \* [Req -> request record]
           delivered,  \* [Req -> Seq(Block)]     what came out of the request's channel, in order
-          larr,       \* [Req -> SUBSET Block]   blocks announced locally on the node while r was open
+          larr,       \* [Req -> SUBSET Block]   blocks announced locally on the node while r was open (may be delivered)
+          lsure,      \* [Req -> SUBSET Block]   ... announced after r's call had returned, i.e. after its subscription
+                      \*                         was in place (must be delivered); GetBlock is synchronous: never
           sess,       \* [Sess -> [st, node]]
           wl,         \* [Node -> SUBSET Block]  last settled GetWantlist() snapshot
           fresh       \* [Node -> BOOLEAN]       snapshot taken and nothing happened since
 
-vars == <<adj, has, adding, rq, delivered, larr, sess, wl, fresh>>
+vars == <<adj, has, adding, rq, delivered, larr, lsure, sess, wl, fresh>>
 
 Range(s) == {s[i] : i \in 1..Len(s)}
-NoReq  == [st |-> "none", node |-> 0, s |-> 0, kind |-> "GetBlocks", keys |-> <<>>, canc |-> FALSE]
+NoReq  == [st |-> "none", node |-> 0, s |-> 0, kind |-> "GetBlocks", keys |-> <<>>, canc |-> FALSE, iss |-> FALSE]
 NoSess == [st |-> "none", node |-> 0]
 
 KeySet(r)  == Range(rq[r].keys)
@@ -60,7 +62,7 @@ Reachable(n, b) == \E m \in adj[n] : b \in has[m]
 \* where may block b handed to request r come from?
 Source(r, b, from) == IF from = 0 THEN b \in larr[r]
                       ELSE from \in adj[rq[r].node] /\ b \in has[from]
-Obligated(r) == rq[r].canc \/ \A b \in Awaited(r) : Reachable(rq[r].node, b) \/ b \in larr[r]
+Obligated(r) == rq[r].canc \/ \A b \in Awaited(r) : Reachable(rq[r].node, b) \/ b \in lsure[r]
 
 Init == /\ adj \in [Node -> SUBSET Node]
         /\ \A n \in Node : n \notin adj[n] /\ \A m \in adj[n] : n \in adj[m]
@@ -68,7 +70,7 @@ Init == /\ adj \in [Node -> SUBSET Node]
         /\ adding = [n \in Node |-> [b \in Block |-> 0]]
         /\ rq = [r \in Req |-> NoReq]
         /\ delivered = [r \in Req |-> <<>>]
-        /\ larr = [r \in Req |-> {}]
+        /\ larr = [r \in Req |-> {}] /\ lsure = [r \in Req |-> {}]
         /\ sess = [s \in Sess |-> NoSess]
         /\ wl = [n \in Node |-> {}]
         /\ fresh = [n \in Node |-> FALSE]
@@ -78,58 +80,67 @@ Stale == fresh' = [n \in Node |-> FALSE] /\ UNCHANGED wl
 OpenSession(s, n) ==
     /\ sess[s].st = "none"
     /\ sess' = [sess EXCEPT ![s] = [st |-> "open", node |-> n]]
-    /\ Stale /\ UNCHANGED <<adj, has, adding, rq, delivered, larr>>
+    /\ Stale /\ UNCHANGED <<adj, has, adding, rq, delivered, larr, lsure>>
 
-Request(r, n, s, kind, keys) ==
+RequestI(r, n, s, kind, keys, issued) ==
     /\ rq[r].st = "none"
     /\ kind \in Kinds /\ (kind = "GetBlock" => Len(keys) = 1)
     /\ s # 0 => (sess[s].st # "none" /\ sess[s].node = n)
     /\ rq' = [rq EXCEPT ![r] = [st |-> "open", node |-> n, s |-> s, kind |-> kind, keys |-> keys,
-                                canc |-> (s # 0 /\ sess[s].st = "cancelled")]]
+                                canc |-> (s # 0 /\ sess[s].st = "cancelled"), iss |-> issued]]
     /\ larr' = [larr EXCEPT ![r] = {b \in Block : adding[n][b] > 0}]
-    /\ Stale /\ UNCHANGED <<adj, has, adding, delivered, sess>>
+    /\ Stale /\ UNCHANGED <<adj, has, adding, delivered, lsure, sess>>
+
+Request(r, n, s, kind, keys) == RequestI(r, n, s, kind, keys, FALSE)
+
+\* the GetBlocks call returned: the subscription of r is in place
+Issued(r) ==
+    /\ Open(r) /\ ~rq[r].iss /\ rq[r].kind = "GetBlocks"
+    /\ rq' = [rq EXCEPT ![r].iss = TRUE]
+    /\ Stale /\ UNCHANGED <<adj, has, adding, delivered, larr, lsure, sess>>
 
 Deliver(r, b, from) ==
     /\ Open(r)
     /\ b \in Awaited(r)            \* only requested, at most once per distinct key
     /\ Source(r, b, from)          \* nothing out of thin air
     /\ delivered' = [delivered EXCEPT ![r] = Append(@, b)]
-    /\ Stale /\ UNCHANGED <<adj, has, adding, rq, larr, sess>>
+    /\ Stale /\ UNCHANGED <<adj, has, adding, rq, larr, lsure, sess>>
 
 Cancel(r) ==
     /\ Open(r)                      \* cancelling twice, or after the session was cancelled, changes nothing
     /\ rq' = [rq EXCEPT ![r].canc = TRUE]
-    /\ Stale /\ UNCHANGED <<adj, has, adding, delivered, larr, sess>>
+    /\ Stale /\ UNCHANGED <<adj, has, adding, delivered, larr, lsure, sess>>
 
 CancelSession(s) ==
     /\ sess[s].st = "open"
     /\ sess' = [sess EXCEPT ![s].st = "cancelled"]
     /\ rq' = [r \in Req |-> IF Open(r) /\ rq[r].s = s THEN [rq[r] EXCEPT !.canc = TRUE] ELSE rq[r]]
-    /\ Stale /\ UNCHANGED <<adj, has, adding, delivered, larr>>
+    /\ Stale /\ UNCHANGED <<adj, has, adding, delivered, larr, lsure>>
 
 Close(r) ==
     /\ Open(r)
     /\ rq[r].canc \/ Awaited(r) = {}
     /\ rq' = [rq EXCEPT ![r].st = "closed"]
-    /\ Stale /\ UNCHANGED <<adj, has, adding, delivered, larr, sess>>
+    /\ Stale /\ UNCHANGED <<adj, has, adding, delivered, larr, lsure, sess>>
 
 \* Put + NotifyNewBlocks on node n: begin ...
 AddBlock(n, b) ==
     /\ has' = [has EXCEPT ![n] = @ \cup {b}]
     /\ adding' = [adding EXCEPT ![n][b] = @ + 1]
     /\ larr' = [r \in Req |-> IF r \in OpenAt(n) THEN larr[r] \cup {b} ELSE larr[r]]
+    /\ lsure' = [r \in Req |-> IF r \in OpenAt(n) /\ rq[r].iss THEN lsure[r] \cup {b} ELSE lsure[r]]
     /\ Stale /\ UNCHANGED <<adj, rq, delivered, sess>>
 \* ... and end (after it no *new* request can be served by this announcement)
 AddDone(n, b) ==
     /\ adding[n][b] > 0
     /\ adding' = [adding EXCEPT ![n][b] = @ - 1]
-    /\ Stale /\ UNCHANGED <<adj, has, rq, delivered, larr, sess>>
+    /\ Stale /\ UNCHANGED <<adj, has, rq, delivered, larr, lsure, sess>>
 
 Snapshot(n, W) ==
     /\ W \subseteq LiveWanted(n)                     \* Cleanup
     /\ wl' = [wl EXCEPT ![n] = W]
     /\ fresh' = [fresh EXCEPT ![n] = TRUE]
-    /\ UNCHANGED <<adj, has, adding, rq, delivered, larr, sess>>
+    /\ UNCHANGED <<adj, has, adding, rq, delivered, larr, lsure, sess>>
 
 Timeout(r) ==
     /\ Open(r) /\ ~Obligated(r)
@@ -140,7 +151,7 @@ KeySeqs == UNION {[1..k -> Block] : k \in 0..2}
 Next == \/ \E s \in Sess, n \in Node : OpenSession(s, n)
         \/ \E r \in Req, n \in Node, s \in Sess \cup {0}, k \in Kinds, ks \in KeySeqs : Request(r, n, s, k, ks)
         \/ \E r \in Req, b \in Block, f \in Node \cup {0} : Deliver(r, b, f)
-        \/ \E r \in Req : Cancel(r) \/ Close(r) \/ Timeout(r)
+        \/ \E r \in Req : Cancel(r) \/ Close(r) \/ Timeout(r) \/ Issued(r)
         \/ \E s \in Sess : CancelSession(s)
         \/ \E n \in Node, b \in Block : AddBlock(n, b) \/ AddDone(n, b)
         \/ \E n \in Node : \E W \in SUBSET LiveWanted(n) : Snapshot(n, W)
